@@ -70,7 +70,8 @@ type writeCtx struct {
 }
 
 // flowSet closes seeds under the value-preserving instructions (phi, interface and type conversions, extraction of the
-// first element of a marked tuple, locals) and under the calls callMarks accepts.
+// first element of a marked tuple, locals, wrapper structs that hold the value in a field) and under the calls callMarks
+// accepts.
 func flowSet(fn *ssa.Function, seeds map[ssa.Value]bool, callMarks func(c *ssa.Call, set map[ssa.Value]bool) bool) map[ssa.Value]bool {
 	set := map[ssa.Value]bool{}
 	for k := range seeds {
@@ -113,7 +114,25 @@ func flowSet(fn *ssa.Function, seeds map[ssa.Value]bool, callMarks func(c *ssa.C
 					mark(x)
 				}
 			case *ssa.Store:
-				if a, ok := x.Addr.(*ssa.Alloc); ok && set[x.Val] {
+				if !set[x.Val] {
+					return
+				}
+				// a local, or a wrapper: a struct (composite literal) one of whose fields - possibly of a nested struct
+				// or array - is given the value, e.g. struct{ io.Writer }{w} to hide the other methods of w. The struct
+				// cell stands for the value it wraps, whether it is used by value (load) or by address (&T{w}).
+				addr := x.Addr
+				for i := 0; i < 4; i++ {
+					switch y := addr.(type) {
+					case *ssa.FieldAddr:
+						addr = y.X
+						continue
+					case *ssa.IndexAddr:
+						addr = y.X
+						continue
+					}
+					break
+				}
+				if a, ok := addr.(*ssa.Alloc); ok {
 					mark(a)
 				}
 			case *ssa.UnOp:
@@ -121,6 +140,11 @@ func flowSet(fn *ssa.Function, seeds map[ssa.Value]bool, callMarks func(c *ssa.C
 					if a, ok := x.X.(*ssa.Alloc); ok && set[a] {
 						mark(x)
 					}
+				}
+			case *ssa.Field:
+				// the wrapped value taken out of a wrapper again (embedded interface field)
+				if set[x.X] && types.IsInterface(x.Type()) {
+					mark(x)
 				}
 			case *ssa.Call:
 				if callMarks(x, set) {
